@@ -721,7 +721,18 @@ def _generate_color_font(config: FontConfig, inputs: Iterable[InputGlyph]):
     color_glyphs = []
     glyph_order = list(ufo.glyphOrder)
     assert glyph_order[0] == ".notdef"
+    glyph_names_seen = set()
+    codepoints_seen = set()
     for glyph_input in inputs:
+        if glyph_input.glyph_name in glyph_names_seen:
+            raise ValueError(f"Multiple inputs map to glyph {glyph_input.glyph_name}")
+        glyph_names_seen.add(glyph_input.glyph_name)
+        if glyph_input.codepoints:
+            if tuple(glyph_input.codepoints) in codepoints_seen:
+                raise ValueError(
+                    f"Multiple inputs map to codepoints {glyph_input.codepoints}"
+                )
+            codepoints_seen.add(tuple(glyph_input.codepoints))
         if glyph_input.glyph_name in glyph_order:
             gid = glyph_order.index(glyph_input.glyph_name)
         else:
